@@ -449,6 +449,11 @@ pub fn run_check(prop: &dyn Prop, cfg: &RunCfg) -> i32 {
             ("library_calls", J::Int(sum.stats.lib_calls as i128)),
             ("fault_counts", fmap(&sum.stats.faults)),
             ("probe_counts", fmap(&sum.stats.probes)),
+            ("distinct_abstract_states", J::Int(sum.stats.states.len() as i128)),
+            (
+                "abstract_state_definition",
+                json::s("computed from observables at the seam only (no hook): connection level = (grammar element the read position falls in, receive-window fill before the read bucketed {0,1,2..W-3,W-2,W-1}, bytes delivered bucketed, result class, requests popped capped at 2, output pending); server level = multiset over connections of (accept state, client open/half-closed/closed, unanswered requests capped at 2, owed output, unread input) plus (epoll readable, backlog non-empty, kill signalled)"),
+            ),
             ("skipped_unspecified_by_properties", J::Int(sum.stats.skipped_unspecified as i128)),
             (
                 "seeds",
